@@ -58,7 +58,7 @@ def model_check(ctx, thorough):
     # (simulate=k generates k behaviours per worker; the algebraic Laws are left to the exhaustive runs)
     for n, w in ([(17, w) for w in WORDS] if thorough else [(9, 16), (17, 8), (17, 16)]):
         r = vlib.tlc_mc(ctx, "MC_BitfieldImpl", "MC_BitfieldImpl_sim.cfg", env=mc_env(n, w, "none", False), workers=4,
-                        simulate=(5000 if thorough else 100), depth=40, seed=ctx.seed, timeout=2400)
+                        simulate=(2000 if thorough else 100), depth=40, seed=ctx.seed, timeout=2400)
         ctx.mc_runs[-1]["constants"] = {"N": n, "W": w, "Bug": "none", "FullOps": False}
     # vacuity guards: each invariant CAN fail - with one defect re-introduced into the transcription
     # TLC must find a counterexample to the named invariant
@@ -255,7 +255,7 @@ def record_plan(ctx, thorough):
                 pairs = "all" if (thorough or (n, w) in ((8, 8), (9, 8))) else "4000"
             else:
                 pairs = "100000" if thorough else "4000"
-            plan.append((n, w, pairs, 10000 if thorough else 600, 2000 if thorough else 150))
+            plan.append((n, w, pairs, 6000 if thorough else 600, 1200 if thorough else 150))
     return plan
 
 
